@@ -22,7 +22,9 @@ ACTION_PROPS = [
 # deviation -> (shape, invariants/properties one of which TLC must report)
 TEETH = {
     "C01": [("no_deactivate", "S1", {"C01_StopsWithoutRequest", "C01_RegularOnlyWhenRequested",
-                                      "C01_IdleIterationLeavesNothing"})],
+                                      "C01_IdleIterationLeavesNothing"}),
+            ("nested_consumes_request", "S1", {"C01_ExactlyOne", "C01_NoDefaultWhileRequested"}),
+            ("nested_consumes_request", "S2", {"C01_ExactlyOne", "C01_NoDefaultWhileRequested"})],
     "C02": [("cycle_no_restart", "S6", {"C02_CycleRestartsAtExpiry", "C03_NonNegative"})],
     "C03": [("cycle_no_restart", "S1", {"C02_CycleRestartsAtExpiry", "C03_NonNegative"})],
     "C04": [("default_no_done", "S2", {"C04_StoppedMeansReset", "C04_StopCallsDone"}),
@@ -48,12 +50,12 @@ KEY_BRANCHES = {
 }
 
 
-def mc_cfg(shapes, *, dev="{}", steps="{1, 2, 5}", durs="{1}", maxrel=7, depth=2, level=12, useinit="TRUE",
+def mc_cfg(shapes, *, dev="{}", steps="{1, 2, 5}", durs="{1}", maxrel=7, depth=2, level=12, useinit="TRUE", acts=2,
            invariants=INVARIANTS, props=ACTION_PROPS):
     names = "{" + ", ".join('"%s"' % s for s in shapes) + "}"
     lines = ["SPECIFICATION MCSpec", "CONSTANTS", "  Dev = %s" % dev, "  ShapeNames = %s" % names,
              "  Steps = %s" % steps, "  DurChoices = %s" % durs, "  MaxRel = %d" % maxrel,
-             "  MaxDepth = %d" % depth, "  MaxLevel = %d" % level, "  UseInit = %s" % useinit,
+             "  MaxDepth = %d" % depth, "  MaxLevel = %d" % level, "  UseInit = %s" % useinit, "  MaxActs = %d" % acts,
              "CONSTRAINT Bound", "VIEW MCView"]
     lines += ["INVARIANT %s" % i for i in invariants]
     lines += ["PROPERTY %s" % p for p in props]
@@ -66,7 +68,7 @@ def sim_cfg(shapes, depth, *, useinit="TRUE", maxrel=60):
     return "\n".join([
         "SPECIFICATION SimSpec", "CONSTANTS", "  Dev = {}", "  ShapeNames = %s" % names,
         "  Steps = {1, 2, 5}", "  DurChoices = {1, 4}", "  MaxRel = %d" % maxrel, "  MaxDepth = 3",
-        "  MaxLevel = 1000", "  UseInit = %s" % useinit, "  SimDepth = %d" % depth,
+        "  MaxLevel = 1000", "  UseInit = %s" % useinit, "  MaxActs = 3", "  SimDepth = %d" % depth,
         "CONSTRAINT Emit", "CONSTRAINT SimBound", "CHECK_DEADLOCK FALSE"]) + "\n"
 
 
@@ -83,6 +85,19 @@ TIERS = {
     "thorough": dict(n_random=24000, length=80, n_sim=6000, sim_depth=40, level=17, maxrel=9, depth=2,
                      mc_workers=16, drivers=16),
 }
+
+
+# Directed histories for open known findings (known_findings.json): the check reproduces each on the tree it runs on.
+F8_SHAPE = {"states": ["a", "m", "d"], "first": "a", "default": "d", "auto": False, "mf": ["m"],
+            "durOf": {"a": -1, "m": -1, "d": -1}, "nextOf": {"a": "none", "m": "none", "d": "none"}}
+F8_EVENTS = [
+    {"e": "engage", "init": "none", "force": False, "depth": 0}, {"e": "execute", "depth": 0},
+    {"e": "done", "depth": 1}, {"e": "ns", "s": "m", "depth": 1}, {"e": "ret", "depth": 1},
+    {"e": "tick", "d": 1, "depth": 0}, {"e": "execute", "depth": 0}, {"e": "ret", "depth": 1},
+    {"e": "tick", "d": 2, "depth": 0}, {"e": "engage", "init": "none", "force": False, "depth": 0},
+    {"e": "execute", "depth": 0}, {"e": "ret", "depth": 1},
+]
+DIRECTED = {"C02": [("F8", F8_SHAPE, F8_EVENTS)], "C03": [("F8", F8_SHAPE, F8_EVENTS)]}
 
 
 def design_check(prop, tier, out):
@@ -154,6 +169,8 @@ def gen_traces(prop, tier, sd):
         jobs = []
         for i, s in enumerate(scripts):
             jobs.append({"id": 1000000 + i, "shape": s["shape"], "events": s["events"]})
+        for i, (fid, shape, events) in enumerate(DIRECTED.get(prop, [])):
+            jobs.append({"id": 3000000 + i, "shape": shape, "events": events, "directed": fid})
         outs = []
         chunks = [jobs[i::4] for i in range(4)]
 
@@ -217,8 +234,10 @@ def check(prop, tier):
     out.notes["simulation_states"] = sim_states
     out.assumptions += [
         "the HAL simulator's FPGA clock and the in-process NetworkTables instance behave like the real ones",
-        "one in-state action per state-function invocation; the default state's function requests no transition; "
-        "next_state()/next_state_now() are called from state functions only",
+        "a state function performs up to MaxActs in-state actions per iteration (MC: 2, simulation: 3, random "
+        "drivers: 4); the default state's function requests no transition; next_state()/next_state_now() are "
+        "called from state functions only; exhaustive exploration does not select a state after done() inside "
+        "the same iteration (the acceptor still judges such traces)",
         "exhaustive exploration is bounded (see tlc_runs); longer histories are sampled and judged by the specification",
     ]
     return out.finish()
@@ -256,7 +275,9 @@ def judge(prop, out, traces, canary, verdicts, st):
                 "kind": "trace_mismatch", "module": "MagicSM", "property": prop, "verdict": v,
                 "trace": {"shape": t["shape"], "extra": t.get("extra"), "steps": t["steps"][:l]},
                 "key": {"module": "MagicSM", "clause": sorted(v["clauses"])[0],
-                        "branch": (v.get("br") or [""])[0]}})
+                        "branch": (v.get("br") or [""])[0], "branches": "+".join(v.get("br") or [])}})
+        if v["v"] == "ACCEPT" and tid >= 3000000:
+            out.notes.setdefault("directed_histories_not_reproducing", []).append(tid)
         if v["v"] == "ACCEPT":
             for b in v.get("seen", []):
                 seen_all[b] = seen_all.get(b, 0) + 1
